@@ -66,6 +66,9 @@ func GenProject(r *core.Rng, flavour string) Project {
 			ghostMods[r.Intn(n)] = true
 		}
 	}
+	// syntax errors in every module in a third of the error projects: many parser
+	// goroutines append diagnostics at the same time
+	syntaxEverywhere := flavour == "errors" && r.Chance(1, 3)
 	errMods := map[int]bool{}
 	if flavour == "errors" {
 		k := r.Range(1, n)
@@ -185,6 +188,11 @@ func GenProject(r *core.Rng, flavour string) Project {
 		// importer gives a diagnostic with labels in two files
 		if flavour == "errors" {
 			fmt.Fprintf(&b, "fn hidden%d(n: i32) -> i32 {\n    return n * 2;\n}\n\n", i)
+		}
+		if syntaxEverywhere {
+			for e := r.Range(1, 3); e > 0; e-- {
+				body = append(body, fmt.Sprintf("let everywhere%d := ;", e))
+			}
 		}
 		// deliberate errors
 		if errMods[i] {
